@@ -1,5 +1,7 @@
 import GoBT.Driver.Proto
 import GoBT.Fee.Model
+import GoBT.Fee.FromTx
+import GoBT.Crypto.Hash
 namespace GoBT.Driver
 open GoBT GoBT.Fee
 
@@ -244,6 +246,23 @@ def c12Fund (args : List String) (impl : String) : String × String :=
                | 0 => "true")
       (model, pred)
     | _, _, _ => ("bad-op", "n/a")
+  | _ => ("bad-op", "n/a")
+
+/-- `C12.fromtx <previous tx> <pubkey hex>`: Tx.AddP2PKHInputsFromTx on a fresh transaction.
+    Predicate: every input added spends an output of the previous transaction whose script is P2PKH-shaped for HASH160(key). -/
+def c12FromTx (args : List String) (impl : String) : String × String :=
+  match args with
+  | [d, k] =>
+    match parseTx? d, hexDec k with
+    | some pvs, some key =>
+      let prevID := (Crypto.sha256d (serialize false pvs)).reverse
+      match addP2PKHInputsFromTx Crypto.hash160 (fun _ => prevID) { version := 1, inputs := [], outputs := [], lockTime := 0 } pvs key with
+      | none => ("PANIC", "n/a")
+      | some (t, ok) =>
+        let model := s!"{if ok then "ok" else "err"} n={t.inputs.length} in={",".intercalate (t.inputs.map showInput)}"
+        let pred := if impl.startsWith "panic" || impl.contains "PANIC" then "false:panic" else "true"
+        (model, pred)
+    | _, _ => ("bad-op", "n/a")
   | _ => ("bad-op", "n/a")
 
 end GoBT.Driver
